@@ -31,7 +31,7 @@ Definition cm_log (outs : list (Z + Z)) : op nat (list Z) Z Z :=
 
 (* set-typed populations: Generation.sort_dedup is what an ordered set keeps of a list (C09_set_population) *)
 (* one step of one Generation value: the population before it, what was asked, what was observed *)
-Definition step_ok (mode0 : Z) (pop : list Z) (fail_at : Z) (res final_t lg_t : tree) : option (bool * bool * bool * list Z) :=
+Definition step_ok (seen : list Z) (mode0 : Z) (pop : list Z) (fail_at : Z) (res final_t lg_t : tree) : option (bool * bool * bool * list Z * list Z) :=
     (* mode 100 + T: scored individuals, child maker through GenomeScorer - judged exactly like mode T *)
     (* mode 200 + T: an ordered set as population (duplicate children collapse); mode 300 + T: a double-ended queue *)
     let setmode := (200 <=? mode0) && (mode0 <? 300) in
@@ -44,7 +44,10 @@ Definition step_ok (mode0 : Z) (pop : list Z) (fail_at : Z) (res final_t lg_t : 
     let children := flat_map (fun o => match o with inl c => [c] | inr _ => [] end) outs in
     let errors := flat_map (fun o => match o with inr e => [e] | inl _ => [] end) outs in
     let saw_old := forallb (fun e => saw_addr e && saw_contents e) lg in
-    let fresh := nodup_b (flat_map (fun e => [w1 e; w2 e]) lg) in
+    (* the words handed to the children of this step are new: distinct from each other AND from every word handed out in
+       an earlier step of the same Generation value (a failed step must not rewind the randomness) *)
+    let words := flat_map (fun e => [w1 e; w2 e]) lg in
+    let fresh := nodup_b (seen ++ words) in
     let injected := (0 <=? fail_at) && (fail_at <? Z.of_nat n) in
     let ok :=
       saw_old && fresh &&
@@ -68,16 +71,16 @@ Definition step_ok (mode0 : Z) (pop : list Z) (fail_at : Z) (res final_t lg_t : 
             else (Z.of_nat (length lg) <=? Z.of_nat n))
       | _ => false
       end in
-    Some (ok, saw_old, fresh, final).
+    Some (ok, saw_old, fresh, final, seen ++ words).
 
 (* further steps of the SAME Generation value: each is judged from the population the previous step left *)
-Fixpoint steps_ok (pop : list Z) (steps obs : list tree) : option bool :=
+Fixpoint steps_ok (seen : list Z) (pop : list Z) (steps obs : list tree) : option bool :=
   match steps, obs with
   | [], [] => Some true
   | L [A mode; A fail_at] :: steps', L [res; final; lg] :: obs' =>
-    olet r := step_ok mode pop fail_at res final lg in
-    let '(ok, _, _, final) := r in
-    olet rest := steps_ok final steps' obs' in Some (ok && rest)
+    olet r := step_ok seen mode pop fail_at res final lg in
+    let '(ok, _, _, final, seen') := r in
+    olet rest := steps_ok seen' final steps' obs' in Some (ok && rest)
   | _, _ => None
   end.
 
@@ -85,14 +88,14 @@ Definition judge (t : tree) : option (list Z) :=
   match t with
   | L [L [A mode; pop; A fail_at]; L [res; final; lg]] =>
     olet pop := tlist tZ pop in
-    olet r := step_ok mode pop fail_at res final lg in
-    let '(ok, saw_old, fresh, _) := r in
+    olet r := step_ok [] mode pop fail_at res final lg in
+    let '(ok, saw_old, fresh, _, _) := r in
     Some [if ok then 0 else 2; if saw_old then 0 else 1; if fresh then 0 else 1]
   | L [L [A mode; pop; A fail_at; L steps]; L [res; final; lg; L obs]] =>
     olet pop := tlist tZ pop in
-    olet r := step_ok mode pop fail_at res final lg in
-    let '(ok, saw_old, fresh, final) := r in
-    olet rest := steps_ok final steps obs in
+    olet r := step_ok [] mode pop fail_at res final lg in
+    let '(ok, saw_old, fresh, final, seen) := r in
+    olet rest := steps_ok seen final steps obs in
     Some [if ok && rest then 0 else 2; if saw_old then 0 else 1; if fresh then 0 else 1]
   | L [_; L [A (-1)]] => Some [2; 9]
   | _ => None
